@@ -5,6 +5,7 @@
 //  mode=storage   : owning -> mapping -> constant mapping -> owning conversions keep shape and contents; copies are deep
 //  mode=rank5     : rank-5 offset = row-major bijection; partial-index views, slices and reshape alias the right elements
 #include "sbv.h"
+#include <utility>
 #include <nano/tensor/algorithm.h>
 #include <nano/tensor/stack.h>
 #include <nano/tensor/tensor.h>
@@ -158,6 +159,25 @@ void mode_storage()
     m(i, j) = w;
     sbv_check(a(i, j) == w, "storage: a write through the mapping is seen by the owner");
     sbv_check(b(i, j) == old_b, "storage: a write through the mapping does not reach a deep copy");
+    // assignment from a view of the tensor itself (the source aliases the destination's buffer): slices of different size
+    {
+        tensor_mem_t<int32_t, 2> s1 = a, s2 = a, s3 = a;
+        const auto               e  = sbv_cfg("e", d0 > 1 ? d0 - 1 : 0);
+        s1 = s1.slice(0, e);                 // from a mutable mapping of itself
+        s2 = std::as_const(s2).slice(0, e);  // from a constant mapping of itself
+        s3 = s3.tensor();                    // from a full mapping of itself
+        int okv = (s1.size<0>() == e && s1.size<1>() == d1 && s2.size<0>() == e && s2.size<1>() == d1 && s3.dims() == a.dims()) ? 1 : 0;
+        sbv_check(okv, "storage: assigning a view of the tensor to the tensor itself yields the view's shape");
+        if (okv)
+        {
+            int same = 1;
+            for (tensor_size_t r = 0; r < e; ++r)
+                for (tensor_size_t c2 = 0; c2 < d1; ++c2) same &= (s1(r, c2) == a(r, c2) && s2(r, c2) == a(r, c2)) ? 1 : 0;
+            for (tensor_size_t r = 0; r < d0; ++r)
+                for (tensor_size_t c2 = 0; c2 < d1; ++c2) same &= (s3(r, c2) == a(r, c2)) ? 1 : 0;
+            sbv_check(same, "storage: assigning a (mutable or constant) view of the tensor to the tensor itself keeps the viewed contents");
+        }
+    }
     // move keeps the buffer
     const auto* pa = a.data();
     tensor_mem_t<int32_t, 2> mv = std::move(a);
